@@ -127,7 +127,7 @@ def main():
         }],
         "checks": checks,
         "not_applicable": na,
-        "notes": "Technique family: deterministic simulation with fault injection. Exit codes of every check: 0 held (possibly with KNOWN-FINDING lines), 1 unlisted violation (VIOLATION line with replay file), 2 checker fault. Known findings: /verif/known_findings.json.",
+        "notes": "Technique family: deterministic simulation with fault injection. Exit codes of every check: 0 held (possibly with KNOWN-FINDING lines), 1 unlisted violation (VIOLATION line with replay file), 2 checker fault. Known findings and fixed entries: /verif/known_findings.json (no finding is open at the end of the build round).",
     }
     json.dump(m, open(os.path.join(V, "MANIFEST.json"), "w"), indent=1)
     print("wrote MANIFEST.json: %d checks, %d not_applicable" % (len(checks), len(na)))
